@@ -13,12 +13,27 @@ observed (hooked) and handed to the model; it is checked to be a topological
 order of the present todo revisions on every case.
 Oracle (independent of the model) on the real outputs:
   domain   = ancestors(stop) - ancestors(onto), present revisions only
-             (skip: a subset whose complement consists of merges);
+             (skip: a subset whose complement consists of merges whose surviving
+             parents collapse to one); with an explicit start / a stop below the
+             tip: exactly the requested range of the topological order (skip:
+             minus collapsed merges only);
   closure  = walking the plan in its own order every new parent is `onto`, the
-             new id of an entry seen earlier, or a ghost;
+             new id of an entry seen EARLIER, or a ghost PARENT OF THE OLD
+             REVISION (an id that merely is absent from the graph, such as the
+             new id of a later / of no entry, does not pass); for an explicit
+             range: ... or a parent of the old revision outside the range that
+             is not merged into `onto` (both skip settings);
   ids      = new ids pairwise distinct, different from every old id;
   persist  = unmarshal(marshal(info, plan)) == (info, plan);
   todo     = rebase_todo lists exactly the entries whose new id is absent.
+Input families: random DAGs (two-lines / bushy / mixed) and a chain-heavy family
+(short upstream line, long local line with merges of upstream, of earlier local
+revisions and of ghosts, planned from its tip onto the upstream tip) so that
+plans of 6+ entries are common (~15 %); `branch:*` counters (a re-computation
+from the graph and the real plan, judged nowhere) show which branches of the loop
+body the cases reach (left parent merged / rewritten / skipped merge / kept ghost
+/ kept outside the range; additional parent not a head / merged / already a
+parent via a skipped merge / replaces onto / appended / kept; merge skipped).
 
 History: DESIGN §7-F12 (with skip_full_merged=True a child of a skipped merge got
 the OLD merge revision as new parent) was found by this check and fixed in /repo
@@ -39,15 +54,20 @@ Mutants tried (scratch worktree, VERIF_REPO):
   M2  `parents[0] = newparent` replacement dropped (redundant `onto` parent kept) -> T2 only
   M12 heads() of the additional parents ignored (redundant/ghost parent kept)    -> T2 only
   H1  harmless: loop rewritten with indices / dict.get                           -> clean
+Improvement round (audit): also
+  M13 kept old left parent replaced by generate_revid(parent) when it is in the todo set (a new id of NO / a later
+      entry, incl. the "new id" of a ghost)                                      -> oracle (closure; passed the old `p not in g` test)
+  M14 with an explicit start every merge is skipped (skip_full_merged=True)      -> oracle (range domain; no oracle before)
+  M11 re-run                                                                     -> oracle (domain)
 """
 import itertools
 
 from vlib import env
 
 THEOREMS = [
-    "anc_spec", "plan_domain", "plan_domain_todo", "plan_parents_closed", "plan_new_ids",
-    "plan_skip_fixed", "plan_skip_domain", "marshal_roundtrip", "todo_is_unrewritten",
-    "transpose_excludes_renames_partial",
+    "anc_spec", "plan_domain", "plan_domain_todo", "plan_parents_closed", "plan_new_ids", "plan_ids_distinct",
+    "plan_range_domain", "plan_range_closed", "plan_skip_exact", "plan_skip_fixed", "marshal_roundtrip",
+    "todo_is_unrewritten", "transpose_excludes_renames_partial",
 ]
 RULE = ("case = (graph with ghosts, stop, onto, start, skip) / (plan text) / (ancestry, renames); "
         "non-trivial = plan has >= 2 entries or an error branch is taken; text cases: >= 1 entry or rejected")
@@ -117,10 +137,32 @@ def ename(e):
 
 # ---------------------------------------------------------------- generators
 def gen_graph(rng, n, nghost):
-    """repository view: NULL present, parentless revisions -> (NULL,), ghosts n+1.."""
+    """repository view: NULL present, parentless revisions -> (NULL,), ghosts n+1..
+    -> (graph, ghosts, hint): hint = (tip, onto) worth planning for the chain-heavy shape, else None"""
     g = {NULL: ()}
     ghosts = [kid(n + 1 + i) for i in range(nghost)]
-    shape = rng.choice(("two-lines", "bushy", "mixed", "mixed"))
+    shape = rng.choice(("two-lines", "bushy", "mixed", "mixed", "chain", "chain", "chain"))
+    if shape == "chain" and n >= 5:
+        # a short upstream line 1..u and a LONG local line u+1..n forking off it, with a few merges of upstream
+        # revisions (fully merged ones included), of earlier local revisions and of ghosts: plans of 6+ entries
+        u = rng.randint(1, max(1, min(3, n - 4)))
+        for i in range(1, u + 1):
+            g[kid(i)] = (kid(i - 1),) if i > 1 else (NULL,)
+        fork = rng.randint(1, u)
+        for i in range(u + 1, n + 1):
+            ps = [kid(fork) if i == u + 1 else kid(i - 1)]
+            r = rng.random()
+            if r < 0.22:
+                ps.append(kid(rng.randint(1, u)))                       # merge of an upstream revision
+            elif r < 0.32 and i - 2 > u:
+                ps.append(kid(rng.randint(u + 1, i - 2)))               # merge of an earlier local revision
+            elif r < 0.40 and ghosts:
+                gh = rng.choice(ghosts)
+                ps.insert(0, gh) if rng.random() < 0.3 else ps.append(gh)
+            if len(ps) == 2 and rng.random() < 0.25:
+                ps.append(kid(rng.randint(1, i - 1)))
+            g[kid(i)] = tuple(dict.fromkeys(ps))          # (a revision never lists a parent twice)
+        return g, ghosts, (kid(n), kid(u))
     for i in range(1, n + 1):
         cands = list(range(1, i))
         if shape == "two-lines" and cands:
@@ -149,7 +191,7 @@ def gen_graph(rng, n, nghost):
             else:
                 ps.append(gh)
         g[kid(i)] = tuple(ps) if ps else (NULL,)
-    return g, ghosts
+    return g, ghosts, None
 
 
 def ancestors(g, k):
@@ -281,26 +323,90 @@ def oracle_simple(ctx, case, g, todo_set, start, stop, onto, skip, plan, order, 
         earlier = set()
         for old, (new, parents) in plan.items():
             for p in parents:
-                if p == onto or p in earlier or p not in g:
+                if p == onto or p in earlier or (p in g[old] and p not in g):
                     continue
                 ctx.violation(case, "entry %s -> %s has new parent %s: not the new base %s, not the new id of an earlier entry, not a ghost (plan %s)" % (
                     slist([old]), slist([new]), slist([p]), slist([onto]), splan(plan)))
             earlier.add(new)
     else:
+        # an explicit start (or a stop that is not the tip): the range of `order` asked for
         have = list(plan)
         i, j = (0 if start is None else order.index(start)), order.index(tip)
         want = [k for k in order[i:j + 1]]
         if not skip and have != want:
             ctx.violation(case, "plan rewrites %s, the requested range is %s" % (slist(have), slist(want)))
+        if skip:
+            surv = surviving_parents(g, onto, want, plan)
+            bad = [k for k in want if k not in plan
+                   and (len(g[k]) < 2 or len(surv[k] - {"BASE"}) > 1 or any(r != "BASE" and r[0] == "old" for r in surv[k]))]
+            if [k for k in have if k not in want] or [k for k in want if k in plan] != have or bad:
+                ctx.violation(case, "skip plan rewrites %s; requested range %s; left out although not a merge of already merged "
+                                    "revisions: %s" % (slist(have), slist(want), sset(bad)))
+        # closure for a range: the new base, the new id of an EARLIER entry, or a parent of the old revision that is
+        # outside the range and not merged into the new base (references to revisions not rewritten are preserved)
+        aonto = ancestors(g, onto)
+        earlier = set()
+        for old, (new, parents) in plan.items():
+            for p in parents:
+                if p == onto or p in earlier or (p in g[old] and p not in want and p != NULL and p not in aonto):
+                    continue
+                ctx.violation(case, "entry %s -> %s has new parent %s: not the new base %s, not the new id of an earlier entry, not "
+                                    "an old parent outside the requested range %s (plan %s)" % (
+                                        slist([old]), slist([new]), slist([p]), slist([onto]), slist(want), splan(plan)))
+            earlier.add(new)
 
 
-def simple_cases(ctx, b, g, ghosts, n):
+def count_branches(ctx, g, onto, todo, plan, skip):
+    """which branches of the loop body a case reaches (a re-computation from the graph and the real plan; counters
+    only, nothing is judged here)"""
+    aonto = ancestors(g, onto)
+    merged = lambda p: p == NULL or p in aonto                          # noqa
+    skipped = {}
+    for old in todo:
+        ps = g[old]
+        stand = lambda q: plan[q][0] if q in plan else skipped.get(q)   # noqa
+        if merged(ps[0]):
+            ctx.count("branch:left=merged-into-onto")
+            parents = [onto]
+        elif stand(ps[0]) is not None:
+            ctx.count("branch:left=rewritten" if ps[0] in plan else "branch:left=skipped-merge")
+            parents = [stand(ps[0])]
+        else:
+            ctx.count("branch:left=kept-%s" % ("ghost" if ps[0] not in g else "outside-range"))
+            parents = [onto, ps[0]]
+        addl = ps[1:]
+        for q in addl:
+            if any(q != r and q in ancestors(g, r) for r in addl):
+                ctx.count("branch:additional=not-a-head")
+            elif merged(q):
+                ctx.count("branch:additional=merged-into-onto")
+            elif stand(q) is not None:
+                n = stand(q)
+                if n in parents:
+                    ctx.count("branch:additional=already-a-parent")
+                elif parents[0] == onto:
+                    ctx.count("branch:additional=replaces-onto")
+                    parents[0] = n
+                else:
+                    ctx.count("branch:additional=appended-%s" % ("rewritten" if q in plan else "skipped-merge"))
+                    parents.append(n)
+            else:
+                ctx.count("branch:additional=kept-%s" % ("ghost" if q not in g else "outside-range"))
+                parents.append(q)
+        if addl and len(parents) == 1 and skip:
+            ctx.count("branch:merge-skipped")
+            skipped[old] = parents[0]
+        elif old in plan and tuple(parents) != plan[old][1]:
+            ctx.count("branch:recomputation-differs")
+
+
+def simple_cases(ctx, b, g, ghosts, n, hint=None):
     from vcsgraph.graph import DictParentsProvider, Graph
     from breezy.plugins.rewrite import rebase
     rng = ctx.rng
     graph = Graph(DictParentsProvider(g))
     nodes = [kid(i) for i in range(1, n + 1)]
-    for _ in range(3):
+    for it in range(3):
         tip = kid(max(rng.randint(1, n), rng.randint(1, n)))
         onto = rng.choice(nodes + (ghosts if rng.random() < 0.05 else []))
         if rng.random() < 0.85:
@@ -308,6 +414,11 @@ def simple_cases(ctx, b, g, ghosts, n):
             cands = [k for k in nodes if tip not in ancestors(g, k)]
             if cands:
                 onto = rng.choice(cands)
+        if hint is not None and it < 2:
+            # the long local line (or, second time, a prefix of it) onto the upstream tip
+            tip, onto = hint if it == 0 else (kid(rng.randint(max(kn(hint[1]) + 1, n - 3), n)), hint[1])
+        elif hint is None and it == 0 and rng.random() < 0.5:
+            tip = kid(n)
         todo_set, _other = graph.find_difference(tip, onto)
         case0 = dict(kind="todo", g=spm(g), tip=kn(tip), onto=kn(onto))
         b.add(case0, "todo %s %d %d" % (spm(g), kn(tip), kn(onto)), sset(todo_set))
@@ -318,7 +429,7 @@ def simple_cases(ctx, b, g, ghosts, n):
         start, stop = None, tip
         if r < 0.12:
             stop = None
-        elif r < 0.27 and todo_set:
+        elif r < 0.30 and todo_set:
             start = rng.choice(sorted(todo_set))
         elif r < 0.32:
             start = rng.choice(nodes)          # possibly outside the todo set
@@ -337,6 +448,12 @@ def simple_cases(ctx, b, g, ghosts, n):
             ctx.count("plan:" + (err or ("skip" if skip else "full")))
             if plan is not None:
                 ctx.count("plan-size:%d" % min(len(plan), 10))
+                ctx.count("plan-kind:%s/%s" % ("command" if start is None and stop in (None, tip) else
+                                               ("start" if start is not None else "stop"), "skip" if skip else "full"))
+                if order:
+                    i0 = 0 if start is None else order.index(start)
+                    j0 = order.index(stop if stop is not None else order[-1])
+                    count_branches(ctx, g, onto, order[i0:j0 + 1], plan, skip)
                 if skip and len(plan) < len({k for k in todo_set if k in g and k != NULL}) and start is None:
                     ctx.count("plan:skipped-some")
                 if plan and skip is False:
@@ -517,9 +634,10 @@ def run(ctx, scale=1):
     ngraphs = ctx.pick(2500, 25000) * scale
     nmax = ctx.pick(12, 15)
     for gi in range(ngraphs):
-        n = rng.randint(2, nmax) if rng.random() < 0.9 else rng.randint(1, 4)
-        g, ghosts = gen_graph(rng, n, rng.randint(0, 2))
-        simple_cases(ctx, b, g, ghosts, n)
+        r = rng.random()
+        n = rng.randint(8, nmax) if r < 0.35 else (rng.randint(2, nmax) if r < 0.9 else rng.randint(1, 4))
+        g, ghosts, hint = gen_graph(rng, n, rng.randint(0, 2))
+        simple_cases(ctx, b, g, ghosts, n, hint)
         if gi % 2 == 0:
             transpose_cases(ctx, b, dict(g), ghosts, n)
         if len(b.lines) > 4000:
